@@ -11,7 +11,7 @@ From Coq Require Import String Ascii NArith ZArith List Bool.
 Import ListNotations.
 From Verif.lib Require Import Term.
 From Verif.model Require Import Commitments TxnAuth TxnAuthSpec TxnAuthCheck.
-From Verif.proofs Require Import TxnAuthProofs.
+From Verif.proofs Require Import TxnAuthProofs TxnCacheProofs.
 Open Scope N_scope.
 
 (* verify.TxnGroup returns nil  =>  every member carries exactly one authorization category
@@ -105,6 +105,33 @@ Theorem C28_compose_spec_ok_sound : forall sig_ok pq_ok H l g st, length l = len
 Proof. exact compose_ok_iff. Qed.
 Print Assumptions C28_compose_spec_ok_sound.
 
+(* --- the verified-transaction cache (model: cstep = TxnGroup / PaysetGroups / ProcessBatch) ---
+   for EVERY sequence of calls, and every pattern of worksets that completed before an aborted
+   PaysetGroups returned, the cache only remembers groups that verified *)
+Theorem C28_cache_sound : forall sig_ok pq_ok H p ops g,
+  In g (crun sig_ok pq_ok H p ops) -> gvalid sig_ok pq_ok H p g = true.
+Proof. exact cache_sound. Qed.
+Print Assumptions C28_cache_sound.
+
+(* block validation (GetUnverifiedTransactionGroups, then PaysetGroups on the rest) accepts a
+   payset only if every group verifies and every member is authorised -- whatever history the
+   shared cache has seen.  Premise: a cache hit stands for a remembered group with the same
+   verification outcome (lookup by txid plus equality of all signature fields and AuthAddr). *)
+Theorem C28_validate_sound : forall sig_ok pq_ok H p (remembered : list group -> group -> bool),
+  (forall c g, remembered c g = true ->
+     exists g', In g' c /\ (gvalid sig_ok pq_ok H p g' = true -> gvalid sig_ok pq_ok H p g = true)) ->
+  forall ops payset,
+    validate sig_ok pq_ok H p remembered (crun sig_ok pq_ok H p ops) payset = true ->
+    forall g s, In g payset -> In s g -> accept_ok sig_ok pq_ok H (authorizer s) s.
+Proof. exact validate_authorised. Qed.
+Print Assumptions C28_validate_sound.
+
+Theorem C28_cache_spec_ok_sound : forall sig_ok pq_ok H g,
+  group_authorised sig_ok pq_ok H g = true <->
+  g <> [] /\ forall s, In s g -> accept_ok sig_ok pq_ok H (authorizer s) s.
+Proof. exact group_authorised_iff. Qed.
+Print Assumptions C28_cache_spec_ok_sound.
+
 (* ---- non-vacuity: concrete groups that are accepted / rejected ---- *)
 Definition ex_params : vparams := mkVParams true true true 10 false true true 16000 1000.
 Definition ex_nomsig : msig := mkMsig 0 0 true [].
@@ -155,3 +182,16 @@ Proof. vm_compute. reflexivity. Qed.
 Example ex_eval_reject_stale :
   fst (eval_txgroup (fun _ x => x) true 16 [(ex_addr 7, ex_addr 8)] true [ex_etx (ex_addr 9) (repeat 0 32)]) = EErrAuth 0.
 Proof. vm_compute. reflexivity. Qed.
+(* cache history: a bad-signature group is never remembered, a good one is; revalidating the
+   payset with the bad group fails again *)
+Definition ex_bad : stxn :=
+  mkStxn (ex_addr 7) (ex_addr 9) false [1; 2; 4] (mkGtx (repeat 0 32) [1; 2; 4]) true []
+         (ex_sig 7) ex_nomsig ex_nolsig ex_nopq.
+Definition ex_rem (c : list group) (g : group) : bool :=
+  existsb (fun g' => list_eqb beqb (map t_enc g) (map t_enc g') && list_eqb beqb (map t_sig g) (map t_sig g')) c.
+Example ex_cache_history :
+  let c := crun ex_sig_ok ex_pq_ok ex_H ex_params [CPayset [[ex_stx1]; [ex_bad]] [true; true]; CTxnGroup [ex_bad]; CBatch [[ex_bad]; [ex_stx1]]] in
+  map (map t_enc) c = [[[1; 2; 3]]] /\
+  validate ex_sig_ok ex_pq_ok ex_H ex_params ex_rem c [[ex_stx1]; [ex_bad]] = false /\
+  validate ex_sig_ok ex_pq_ok ex_H ex_params ex_rem c [[ex_stx1]] = true.
+Proof. vm_compute. repeat split. Qed.
